@@ -1,15 +1,11 @@
 import Gtree.Model.Generate
 import Gtree.Spec.Merge
+import Gtree.Spec.Spelling
 /-
   The zipper builder (`dfs` on the stack of open nodes) fed with the pre-order items of a forest
   builds exactly the merged forest of the specification (`absorbAll`).
 -/
 namespace Gtree
-
-/-- pre-order items (hierarchy, name) of the children `ks` of a node at hierarchy `d - 1` -/
-def items (d : Nat) : List T → List (Nat × Bytes)
-  | [] => []
-  | .mk n ks :: rest => (d, n) :: items (d + 1) ks ++ items d rest
 
 /-- feed items to the builder -/
 def feed : Zipper → List (Nat × Bytes) → Option Zipper
@@ -222,5 +218,87 @@ theorem feed_items : ∀ (ks : List T) (z : Zipper) (d : Nat), 1 ≤ d → d ≤
         rw [up_absorb_descend n sub f rest htcP]
         simp [absorbTop, absorbAll_cons]
 termination_by ks => sizeOf ks
+
+
+/-- the generator's fold over already parsed items (the row is only used in error messages) -/
+def addItems (s : GState) : List (Nat × Bytes) → Except GErr GState
+  | [] => .ok s
+  | (h, x) :: rest => match addItem s h x [] with
+    | .error e => .error e
+    | .ok s' => addItems s' rest
+
+theorem addItems_append (s : GState) (a b : List (Nat × Bytes)) :
+    addItems s (a ++ b) = (match addItems s a with | .error e => .error e | .ok s' => addItems s' b) := by
+  induction a generalizing s with
+  | nil => simp [addItems]
+  | cons it a ih =>
+    obtain ⟨h, x⟩ := it
+    simp only [List.cons_append, addItems]
+    cases addItem s h x [] with
+    | error e => simp
+    | ok s' => simp [ih]
+
+theorem items_ge (d : Nat) : ∀ (ks : List T) (it : Nat × Bytes), it ∈ items d ks → d ≤ it.1
+  | [], it, h => by simp [items] at h
+  | T.mk n sub :: rest, it, h => by
+    simp only [items, List.mem_append, List.mem_cons] at h
+    rcases h with (h | h) | h
+    · subst h; simp
+    · have := items_ge (d + 1) sub it h; omega
+    · exact items_ge d rest it h
+termination_by ks => sizeOf ks
+
+/-- below a root, `addItem` is `dfs` on the open path -/
+theorem addItems_feed (s : GState) (z z' : Zipper) (its : List (Nat × Bytes))
+    (hcur : s.cur = some z) (hge : ∀ it ∈ its, 2 ≤ it.1) (hfeed : feed z its = some z') :
+    addItems s its = .ok { s with cur := some z' } := by
+  induction its generalizing s z with
+  | nil =>
+    simp only [feed, Option.some.injEq] at hfeed
+    subst hfeed
+    cases s; simp_all [addItems]
+  | cons it its ih =>
+    obtain ⟨h, x⟩ := it
+    have h2 : 2 ≤ h := hge (h, x) (by simp)
+    simp only [feed] at hfeed
+    cases hd : dfs h x z with
+    | none => simp [hd] at hfeed
+    | some z1 =>
+      simp only [hd] at hfeed
+      have hne : (h == 1) = false := by simp; omega
+      simp only [addItems, addItem, hne, hcur, hd, Bool.false_eq_true, if_false]
+      have := ih { s with cur := some z1 } z1 rfl (fun it hit => hge it (by simp [hit])) hfeed
+      simpa using this
+
+theorem closeAll_of_closeTo (z : Zipper) (f : Frame) (h : closeTo 1 z = [f]) : closeAll z = some f.close := by
+  simp [closeAll, h]
+
+/-- Feeding the pre-order items of a whole forest (roots have hierarchy 1) to the generator leaves
+    exactly the merged roots, in input order. -/
+theorem addItems_forest : ∀ (f : List T) (s : GState),
+    ∃ s', addItems s (items 1 f) = .ok s' ∧ s'.finishCur = s.finishCur ++ f.map mergeRoot ∧ s'.p = s.p
+  | [], s => ⟨s, by simp [items, addItems], by simp, rfl⟩
+  | T.mk r ks :: rest, s => by
+    let s1 : GState := { s with done := s.finishCur, cur := some [{ name := r, left := [], right := [] }] }
+    have hroot : addItem s 1 r [] = .ok s1 := by simp [addItem, s1]
+    obtain ⟨z', hfeed, _, _, hclose⟩ := feed_items ks [{ name := r, left := [], right := [] }] 1 (by omega) (by simp) (by simp [TopClosed])
+    have hc1 : closeTo 1 [({ name := r, left := [], right := [] } : Frame)] = [{ name := r, left := [], right := [] }] :=
+      closeTo_self 1 _ (by simp)
+    rw [hc1] at hclose
+    simp only [absorbTop] at hclose
+    have hkids : addItems s1 (items 2 ks) = .ok { s1 with cur := some z' } :=
+      addItems_feed s1 _ z' (items 2 ks) rfl (fun it hit => items_ge 2 ks it hit) hfeed
+    let s2 : GState := { s1 with cur := some z' }
+    have hfin : s2.finishCur = s.finishCur ++ [mergeRoot (T.mk r ks)] := by
+      simp [s2, s1, GState.finishCur, closeAll_of_closeTo z' _ hclose, Frame.close, mergeRoot, mergeKids]
+    obtain ⟨s3, h3, hf3, hp3⟩ := addItems_forest rest s2
+    refine ⟨s3, ?_, ?_, ?_⟩
+    · simp only [items]
+      rw [addItems_append]
+      simp only [addItems, hroot, hkids]
+      exact h3
+    · rw [hf3, hfin]; simp
+    · rw [hp3]
+termination_by f => sizeOf f
 
 end Gtree
